@@ -20,10 +20,10 @@ BOUNDS = 'script templates (27 shapes covering arithmetic, conditionals, stack o
 def setup(E): maindeb.setup(E)
 
 SCRIPTS = [
-    ('OP_ADD', [1, 1]), ('OP_ADD', [2, 2]), ('OP_ADD', [4, 1]), ('OP_ADD', [5, 1]), ('OP_ADD', [1]), ('OP_ADD OP_VERIFY', [1, 1]), ('OP_1ADD OP_DUP', [2]), ('OP_SUB OP_ABS OP_NEGATE', [1, 1]),
+    ('OP_ADD', [1, 1]), ('OP_ADD', [5, 1]), ('OP_ADD', [1]), ('OP_ADD OP_VERIFY', [1, 1]), ('OP_1ADD OP_DUP', [2]), ('OP_SUB OP_ABS OP_NEGATE', [1, 1]),
     ('OP_IF OP_1 OP_ELSE OP_2 OP_ENDIF', [1]), ('OP_IF OP_1', [1]), ('OP_NOTIF OP_RETURN OP_ENDIF OP_3', [1]), ('OP_ENDIF', []), ('OP_1 OP_2 OP_3', []), ('OP_DROP', []), ('OP_DROP', [2]),
     ('OP_EQUAL', [2, 2]), ('OP_EQUALVERIFY OP_1', [1, 1]), ('OP_SIZE OP_SWAP OP_TOALTSTACK', [3]), ('OP_PICK', [1, 1, 1]), ('OP_WITHIN', [1, 1, 1]), ('OP_DEPTH OP_NIP', [1]), ('OP_HASH160', [1]),
-    ('OP_NOP1', []), ('OP_CHECKLOCKTIMEVERIFY', [1]), ('OP_CAT', [1, 1]), ('OP_RESERVED', []), ('OP_FROMALTSTACK', []), ('OP_0 OP_NOT OP_VERIFY', []), ('0x????', []), ('OP_MIN OP_NUMEQUAL', [2, 1, 1]),
+    ('OP_NOP1', []), ('OP_CHECKLOCKTIMEVERIFY', [1]), ('OP_CAT', [1, 1]), ('OP_RESERVED', []), ('OP_FROMALTSTACK', []), ('OP_0 OP_NOT OP_VERIFY', []), ('0x????', []), ('OP_MIN OP_NUMEQUAL', [1, 1, 1]),
 ]
 
 def obligations(tier, seed):
